@@ -942,6 +942,8 @@ class PyExec:
         return Sym(z3.And(ta, tb), "bool")
 
     def compare(self, op, a, b, st):
+        if isinstance(a, Opaque) or isinstance(b, Opaque):
+            return Sym(z3.Bool(uid("opaque_cmp")), "bool")  # unknown outcome: both branches are explored
         if isinstance(op, (ast.Is, ast.IsNot)):
             if isinstance(b, Const) and b.v is None:
                 r = isinstance(a, Const) and a.v is None
@@ -1360,6 +1362,13 @@ class PyExec:
             a = Arr(dt or "infer", [z3.IntVal(len(elems))], data=uid("nparray"))
             a.elems = elems
             return [("val", a, st)]
+        if name in ("require", "ascontiguousarray", "asarray", "array") and f in (np.require, np.ascontiguousarray, np.asarray) and isinstance(args[0], Arr):
+            # may return its argument or a *copy* (alignment / layout / dtype dependent): both explored
+            src = args[0]
+            cp = Arr(src.dtype, src.shape, buf=None, data=uid("copy_of_" + src.data))
+            s2 = st.fork()
+            s2.effects.append(("array-copied", src, cp))
+            return [("val", src, st), ("val", cp, s2)]
         if f is np.copyto:
             st.effects.append(("copyto", args[0], args[1]))
             return [("val", Const(None), st)]
@@ -1370,6 +1379,10 @@ class PyExec:
             ref = st.new_obj("$npz", {"file": args[0]})
             st.effects.append(("np.load", ref.oid))
             return [("val", ref, st)]
+        if name == "Path":
+            r = Opaque("Path")
+            r.src = args[0] if args else None
+            return [("val", r, st)]
         if name in ("sleep", "collect"):
             st.effects.append((name,))
             return [("val", Const(None), st)]
@@ -1448,9 +1461,13 @@ class PyExec:
             src = args[0]
             oi = getattr(src, "origin_idx", None)
             lead = [self.concrete(i) for i in oi[:-1]] if isinstance(oi, tuple) and len(oi) >= 2 and all(isinstance(i, (Sym, Const)) for i in oi[:-1]) else None
+            t = None
             if lead is not None and all(c is not None for c in lead) and isinstance(src, Arr) and src.base is not None:
-                t = z3.Int("cellkey_%s[%s]" % (src.base.data, ",".join(map(str, lead))))  # identity stored in that cell
-            else:
+                sl = oi[-1]
+                if isinstance(sl, tuple) and sl and sl[0] == "slice" and (sl[1] is None or self.concrete(sl[1]) == 0) and sl[2] is not None:
+                    # the byte string stored in that cell, cut at the given length: CELLKEY(row.., length)
+                    t = cellkey(src.base.data, lead, self.num(sl[2])[0])
+            if t is None:
                 t = z3.Int(uid("bytes"))
             v = Sym(t, "bytes")
             v.origin = ("bytes", src)
@@ -1527,6 +1544,11 @@ class PyExec:
             v.origin = ("bytes", selfv)
             return [("val", v, st)]
         raise Unsupported("method %s" % name)
+
+
+def cellkey(data, lead, hi):
+    f = z3.Function("CELLKEY_%s" % data, *([z3.IntSort()] * (len(lead) + 2)))
+    return f(*([z3.IntVal(i) for i in lead] + [hi]))
 
 
 POW2 = z3.Function("POW2", z3.IntSort(), z3.IntSort())
